@@ -669,6 +669,11 @@ def rt_cases(prop):
             S('top', [S('n1', [S('n2', [J('x', critical=True, outcome='raise')], critical=True)], critical=True),
                       J('y', duration=3)], critical=False),
             S('top', [J('a', shutdown_duration=3), J('b')], shutdown_timeout=0.125),
+            # a requirement finishing a few loop iterations after another one that raised, while the window is full
+            S('top', [J('r1', outcome='raise'), J('r2', yields=3), J('x1', duration=5), J('x2', duration=5),
+                      J('x3', duration=5), J('c')], [(2, 0), (3, 0), (4, 0), (5, 0), (5, 1)], window=2),
+            S('top', [J('r1', outcome='raise'), J('r2', yields=4), J('x1', duration=5), J('x2', duration=5),
+                      J('c')], [(2, 0), (3, 0), (4, 0), (4, 1)], window=2),
             S('top', [S('in', [J('x', shutdown_duration=3)], shutdown_timeout=0.125), J('b', duration=2)]),
         ]
         for sp in fixed:
